@@ -8,9 +8,20 @@ pub mod reference;
 #[cfg(hbs_lms_verif)]
 pub mod contracts;
 
-#[cfg(kani)]
+#[cfg(any(kani, verif_check))]
 #[macro_use]
 pub mod proofs;
+
+/// `cargo check` shim (RUSTFLAGS="--cfg hbs_lms_verif --cfg verif_check"): lets the harness sources be
+/// type-checked in seconds without the Kani compiler. Never part of a verification run.
+#[cfg(all(verif_check, not(kani)))]
+pub mod kani {
+    pub fn any<T>() -> T { unimplemented!() }
+    pub fn assume(_c: bool) {}
+    #[macro_export]
+    macro_rules! __verif_cover { ($($t:tt)*) => {}; }
+    pub use crate::__verif_cover as cover;
+}
 
 // Counterexample replay: the driver points VERIF_PLAYBACK at a generated test file and builds
 // with `--cfg verif_playback` (cargo kani playback).
